@@ -1,1 +1,644 @@
-fn main(){}
+// rs2coq: translate the pure integer / decision core of riquito/tuc from Rust source to Gallina.
+//
+//   rs2coq <repo-root> <out-dir>
+//
+// For every target function listed in TARGETS the tool parses the current source file with `syn`,
+// finds the function, and writes <out-dir>/Gen_<name>.v holding one Gallina definition `gen_<name>`
+// in the result monad of Tie/RsPrelude.v (`rs A := Ret a | Panic`): i32/usize arithmetic is checked
+// (overflow = Panic, the debug-build semantics), `as` casts wrap, `Result`/`Option` values become
+// `option` (the error payload, a message, is dropped), `bail!`/`return`/`?` become early exits,
+// `match` arms are tried in order with their guards. Anything outside the supported subset makes
+// the function "unsupported": no file is written for it and status.json says why.
+// status.json: { "<name>": {"status": "ok"|"unsupported"|"missing", "detail": "...", "source": "file:line"} }
+use std::collections::HashMap;
+use std::fmt::Write as _;
+use syn::spanned::Spanned;
+use syn::*;
+
+struct Target {
+    name: &'static str,          // gallina name suffix
+    file: &'static str,          // path below the repo root
+    impl_trait: Option<&'static str>,
+    impl_self: Option<&'static str>,
+    func: &'static str,
+    calls: &'static [(&'static str, &'static str)], // rust callee / method name -> gallina function
+    deps: &'static [&'static str],                  // other targets this one needs
+}
+
+const TARGETS: &[Target] = &[
+    Target { name: "side_partial_cmp", file: "src/bounds/side.rs", impl_trait: Some("PartialOrd"), impl_self: Some("Side"),
+             func: "partial_cmp", calls: &[], deps: &[] },
+    Target { name: "ub_partial_cmp", file: "src/bounds/userbounds.rs", impl_trait: Some("PartialOrd"), impl_self: Some("UserBounds"),
+             func: "partial_cmp", calls: &[("partial_cmp", "gen_side_partial_cmp")], deps: &["side_partial_cmp"] },
+    Target { name: "ub_matches", file: "src/bounds/userbounds.rs", impl_trait: Some("UserBoundsTrait"), impl_self: Some("UserBounds"),
+             func: "matches", calls: &[], deps: &[] },
+    Target { name: "ub_try_into_range", file: "src/bounds/userbounds.rs", impl_trait: Some("UserBoundsTrait"), impl_self: Some("UserBounds"),
+             func: "try_into_range", calls: &[], deps: &[] },
+    Target { name: "complement_std_range", file: "src/bounds/userbounds.rs", impl_trait: None, impl_self: None,
+             func: "complement_std_range", calls: &[], deps: &[] },
+];
+
+#[derive(Clone, Copy, PartialEq, Debug)]
+enum Ty { I32, Usize, Bool, Side, Other }
+
+type R<T> = std::result::Result<T, String>;
+
+struct Cx {
+    env: Vec<(String, Ty)>,
+    fresh: usize,
+    calls: HashMap<String, String>,
+    tuple_hint: Vec<Ty>,
+    ret_ty: String,
+}
+
+const KEYWORDS: &[&str] = &["end", "match", "with", "fun", "let", "in", "if", "then", "else", "return", "as", "at", "fix",
+    "forall", "exists", "Type", "Set", "Prop", "where", "for", "using", "cofix", "struct", "mod", "left", "right", "by", "do", "Some", "None"];
+
+fn ident(s: &str) -> String {
+    let s = s.trim_start_matches("r#");
+    if KEYWORDS.contains(&s) { format!("{}_", s) } else { s.to_string() }
+}
+
+fn path_str(p: &Path) -> String {
+    p.segments.iter().map(|s| s.ident.to_string()).collect::<Vec<_>>().join("::")
+}
+
+/// unit constructors / constants
+fn unit_ctor(p: &str) -> Option<&'static str> {
+    Some(match p {
+        "Side::Continue" => "SCont",
+        "None" => "None",
+        "Ordering::Less" => "Lt",
+        "Ordering::Equal" => "Eq",
+        "Ordering::Greater" => "Gt",
+        "true" => "true",
+        "false" => "false",
+        _ => return None,
+    })
+}
+
+/// constructors with one argument: gallina name, argument type
+fn ctor1(p: &str) -> Option<(&'static str, Ty)> {
+    Some(match p {
+        "Side::Some" => ("SSome", Ty::I32),
+        "Some" => ("Some", Ty::Other),
+        "Ok" => ("Some", Ty::Other),
+        _ => return None,
+    })
+}
+
+fn field(name: &str) -> Option<(&'static str, Ty)> {
+    Some(match name {
+        "l" => ("bl", Ty::Side),
+        "r" => ("br", Ty::Side),
+        "is_last" => ("blast", Ty::Bool),
+        "fallback_oob" => ("bfb", Ty::Other),
+        "start" => ("fst", Ty::Usize),
+        "end" => ("snd", Ty::Usize),
+        _ => return None,
+    })
+}
+
+fn ty_of_type(t: &Type) -> (String, Ty) {
+    match t {
+        Type::Reference(r) => ty_of_type(&r.elem),
+        Type::Path(p) => {
+            let s = path_str(&p.path);
+            match s.as_str() {
+                "i32" => ("Z".into(), Ty::I32),
+                "usize" => ("Z".into(), Ty::Usize),
+                "bool" => ("bool".into(), Ty::Bool),
+                "Side" => ("side".into(), Ty::Side),
+                "UserBounds" => ("ubound".into(), Ty::Other),
+                "Range" => ("(Z * Z)%type".into(), Ty::Other),
+                _ => (format!("UNKNOWN_{}", s.replace("::", "_")), Ty::Other),
+            }
+        }
+        _ => ("UNKNOWN".into(), Ty::Other),
+    }
+}
+
+impl Cx {
+    fn retk(&self) -> String { format!("(fun x : {} => Ret x)", self.ret_ty) }
+    fn fresh(&mut self, base: &str) -> String {
+        self.fresh += 1;
+        format!("{}_{}", base, self.fresh)
+    }
+    fn lookup(&self, v: &str) -> Option<Ty> {
+        self.env.iter().rev().find(|(n, _)| n == v).map(|(_, t)| *t)
+    }
+
+    // ---------------------------------------------------------------- types (a light inference)
+    fn ty(&self, e: &Expr) -> Ty {
+        match e {
+            Expr::Lit(l) => match &l.lit { Lit::Bool(_) => Ty::Bool, Lit::Int(i) => match i.suffix() { "usize" => Ty::Usize, _ => Ty::I32 }, _ => Ty::Other },
+            Expr::Path(p) => { let s = path_str(&p.path); self.lookup(&s).unwrap_or(if unit_ctor(&s).map_or(false, |c| c == "true" || c == "false") { Ty::Bool } else { Ty::Other }) }
+            Expr::Paren(p) => self.ty(&p.expr),
+            Expr::Reference(r) => self.ty(&r.expr),
+            Expr::Unary(u) => match u.op { UnOp::Not(_) => Ty::Bool, _ => self.ty(&u.expr) },
+            Expr::Cast(c) => ty_of_type(&c.ty).1,
+            Expr::Field(f) => match &f.member { Member::Named(n) => field(&n.to_string()).map_or(Ty::Other, |x| x.1), _ => Ty::Other },
+            Expr::MethodCall(m) => match m.method.to_string().as_str() { "is_positive" | "is_negative" | "is_some" | "is_none" => Ty::Bool, _ => Ty::Other },
+            Expr::Binary(b) => match b.op {
+                BinOp::Add(_) | BinOp::Sub(_) | BinOp::Mul(_) => { let l = self.ty(&b.left); if l == Ty::Other { self.ty(&b.right) } else { l } }
+                _ => Ty::Bool,
+            },
+            _ => Ty::Other,
+        }
+    }
+    fn int_ty(&self, a: &Expr, b: &Expr) -> Ty {
+        // literals adapt to the other operand
+        let lit = |e: &Expr| matches!(e, Expr::Lit(ExprLit { lit: Lit::Int(i), .. }) if i.suffix().is_empty());
+        let (ta, tb) = (self.ty(a), self.ty(b));
+        if lit(a) && !lit(b) { return tb; }
+        if lit(b) && !lit(a) { return ta; }
+        if ta == Ty::Other { tb } else { ta }
+    }
+
+    // ---------------------------------------------------------------- pure expressions
+    fn pure(&mut self, e: &Expr) -> R<Option<String>> {
+        Ok(Some(match e {
+            Expr::Lit(l) => match &l.lit {
+                Lit::Int(i) => format!("{}", i.base10_digits()),
+                Lit::Bool(b) => format!("{}", b.value),
+                _ => return Err("literal kind".into()),
+            },
+            Expr::Path(p) => {
+                let s = path_str(&p.path);
+                if self.lookup(&s).is_some() { ident(&s) }
+                else if let Some(c) = unit_ctor(&s) { c.to_string() }
+                else if s == "self" { "self".into() }
+                else { return Err(format!("unknown name `{}`", s)); }
+            }
+            Expr::Paren(p) => return self.pure(&p.expr),
+            Expr::Group(p) => return self.pure(&p.expr),
+            Expr::Reference(r) => return self.pure(&r.expr),
+            Expr::Unary(u) => match u.op {
+                UnOp::Deref(_) => return self.pure(&u.expr),
+                UnOp::Not(_) => match self.pure(&u.expr)? { Some(x) => format!("(negb {})", x), None => return Ok(None) },
+                UnOp::Neg(_) => match &*u.expr {
+                    Expr::Lit(ExprLit { lit: Lit::Int(i), .. }) => format!("(-{})", i.base10_digits()),
+                    _ => return Ok(None),
+                },
+                _ => return Err("unary operator".into()),
+            },
+            Expr::Field(f) => {
+                let base = match self.pure(&f.base)? { Some(b) => b, None => return Ok(None) };
+                match &f.member {
+                    Member::Named(n) => match field(&n.to_string()) { Some((g, _)) => format!("({} {})", g, base), None => return Err(format!("field `{}`", n)) },
+                    _ => return Err("tuple field".into()),
+                }
+            }
+            Expr::Cast(c) => {
+                let inner = match self.pure(&c.expr)? { Some(b) => b, None => return Ok(None) };
+                let from = self.ty(&c.expr);
+                let to = ty_of_type(&c.ty).1;
+                match (from, to) {
+                    (_, Ty::I32) if from == Ty::I32 => inner,
+                    (_, Ty::Usize) if from == Ty::Usize => inner,
+                    (Ty::Usize, Ty::I32) => format!("(cast_i32 {})", inner),
+                    (Ty::I32, Ty::Usize) => format!("(cast_usize {})", inner),
+                    _ => return Err(format!("cast {:?} -> {:?}", from, to)),
+                }
+            }
+            Expr::Binary(b) => {
+                let arith = matches!(b.op, BinOp::Add(_) | BinOp::Sub(_) | BinOp::Mul(_));
+                if arith { return Ok(None); }
+                let l = match self.pure(&b.left)? { Some(x) => x, None => return Ok(None) };
+                let r = match self.pure(&b.right)? { Some(x) => x, None => return Ok(None) };
+                self.binop_pure(&b.op, &b.left, &b.right, &l, &r)?
+            }
+            Expr::MethodCall(m) => {
+                let name = m.method.to_string();
+                if self.calls.contains_key(&name) { return Ok(None); }
+                let recv = match self.pure(&m.receiver)? { Some(x) => x, None => return Ok(None) };
+                let mut args = vec![];
+                for a in &m.args { match self.pure(a)? { Some(x) => args.push(x), None => return Ok(None) } }
+                match (name.as_str(), args.len()) {
+                    ("is_positive", 0) => format!("(0 <? {})", recv),
+                    ("is_negative", 0) => format!("({} <? 0)", recv),
+                    ("cmp", 1) => format!("(i32_cmp {} {})", recv, args[0]),
+                    ("clone", 0) => recv,
+                    _ => return Err(format!("method `{}`", name)),
+                }
+            }
+            Expr::Call(c) => {
+                let f = match &*c.func { Expr::Path(p) => path_str(&p.path), _ => return Err("call of a non-path".into()) };
+                if self.calls.contains_key(&f) { return Ok(None); }
+                let mut args = vec![];
+                for a in &c.args { match self.pure(a)? { Some(x) => args.push(x), None => return Ok(None) } }
+                if f == "Err" { "None".to_string() }
+                else if f == "Vec::new" && args.is_empty() { "[]".to_string() }
+                else if let Some((g, _)) = ctor1(&f) { if args.len() != 1 { return Err("constructor arity".into()); } format!("({} {})", g, args[0]) }
+                else { return Err(format!("call of `{}`", f)); }
+            }
+            Expr::Tuple(t) => {
+                let mut xs = vec![];
+                for a in &t.elems { match self.pure(a)? { Some(x) => xs.push(x), None => return Ok(None) } }
+                if xs.is_empty() { "tt".into() } else { format!("({})", xs.join(", ")) }
+            }
+            Expr::Struct(s) => {
+                if path_str(&s.path) != "Range" { return Err(format!("struct literal `{}`", path_str(&s.path))); }
+                let mut st = None; let mut en = None;
+                for f in &s.fields {
+                    let v = match self.pure(&f.expr)? { Some(x) => x, None => return Ok(None) };
+                    match &f.member { Member::Named(n) if n == "start" => st = Some(v), Member::Named(n) if n == "end" => en = Some(v), _ => return Err("Range field".into()) }
+                }
+                format!("({}, {})", st.ok_or("Range.start")?, en.ok_or("Range.end")?)
+            }
+            Expr::Range(r) => {
+                let a = match r.start.as_ref() { Some(x) => match self.pure(x)? { Some(v) => v, None => return Ok(None) }, None => return Err("open range".into()) };
+                let b = match r.end.as_ref() { Some(x) => match self.pure(x)? { Some(v) => v, None => return Ok(None) }, None => return Err("open range".into()) };
+                if !matches!(r.limits, RangeLimits::HalfOpen(_)) { return Err("inclusive range".into()); }
+                format!("({}, {})", a, b)
+            }
+            Expr::Macro(m) => {
+                let name = path_str(&m.mac.path);
+                if name == "vec" {
+                    let parser = punctuated::Punctuated::<Expr, Token![,]>::parse_terminated;
+                    let elems = m.mac.parse_body_with(parser).map_err(|e| format!("vec! body: {}", e))?;
+                    let mut xs = vec![];
+                    for a in &elems { match self.pure(a)? { Some(x) => xs.push(x), None => return Ok(None) } }
+                    format!("[{}]", xs.join("; "))
+                } else { return Ok(None); }
+            }
+            Expr::If(_) | Expr::Match(_) | Expr::Block(_) | Expr::Return(_) | Expr::Try(_) => return Ok(None),
+            other => return Err(format!("expression kind at line {}", other.span().start().line)),
+        }))
+    }
+
+    fn binop_pure(&self, op: &BinOp, le: &Expr, re: &Expr, l: &str, r: &str) -> R<String> {
+        let t = self.int_ty(le, re);
+        let intlike = matches!(t, Ty::I32 | Ty::Usize);
+        Ok(match op {
+            BinOp::And(_) => format!("(andb {} {})", l, r),
+            BinOp::Or(_) => format!("(orb {} {})", l, r),
+            BinOp::Lt(_) if intlike => format!("({} <? {})", l, r),
+            BinOp::Le(_) if intlike => format!("({} <=? {})", l, r),
+            BinOp::Gt(_) if intlike => format!("({} <? {})", r, l),
+            BinOp::Ge(_) if intlike => format!("({} <=? {})", r, l),
+            BinOp::Eq(_) if intlike => format!("({} =? {})", l, r),
+            BinOp::Ne(_) if intlike => format!("(negb ({} =? {}))", l, r),
+            BinOp::Eq(_) if t == Ty::Bool => format!("(Bool.eqb {} {})", l, r),
+            BinOp::Ne(_) if t == Ty::Bool => format!("(xorb {} {})", l, r),
+            BinOp::Eq(_) if t == Ty::Side => format!("(side_eqb {} {})", l, r),
+            BinOp::Ne(_) if t == Ty::Side => format!("(negb (side_eqb {} {}))", l, r),
+            _ => return Err(format!("operator on operands of type {:?}", t)),
+        })
+    }
+
+    // ---------------------------------------------------------------- patterns
+    /// returns (gallina pattern, irrefutable?) and pushes the bound variables into the environment
+    fn pat(&mut self, p: &Pat, hint: Ty) -> R<(String, bool)> {
+        Ok(match p {
+            Pat::Wild(_) => ("_".into(), true),
+            Pat::Ident(i) => {
+                let n = i.ident.to_string();
+                if let Some(c) = unit_ctor(&n) { (c.to_string(), false) }
+                else { self.env.push((n.clone(), hint)); (ident(&n), true) }
+            }
+            Pat::Reference(r) => return self.pat(&r.pat, hint),
+            Pat::Paren(r) => return self.pat(&r.pat, hint),
+            Pat::Type(t) => { let ty = ty_of_type(&t.ty).1; return self.pat(&t.pat, ty); }
+            Pat::Tuple(t) => {
+                let mut xs = vec![]; let mut irr = true;
+                for (k, e) in t.elems.iter().enumerate() {
+                    let h = match hint { Ty::Other => self.tuple_hint.get(k).copied().unwrap_or(Ty::Other), h => h };
+                    let (s, i) = self.pat(e, h)?; xs.push(s); irr &= i;
+                }
+                (format!("({})", xs.join(", ")), irr)
+            }
+            Pat::TupleStruct(ts) => {
+                let c = path_str(&ts.path);
+                let (g, aty) = ctor1(&c).ok_or(format!("pattern constructor `{}`", c))?;
+                if ts.elems.len() != 1 { return Err("pattern arity".into()); }
+                let (s, _) = self.pat(&ts.elems[0], aty)?;
+                (format!("({} {})", g, s), false)
+            }
+            Pat::Path(pp) => { let c = path_str(&pp.path); (unit_ctor(&c).ok_or(format!("pattern `{}`", c))?.to_string(), false) }
+            Pat::Lit(l) => match &l.lit { Lit::Int(i) => (i.base10_digits().to_string(), false), Lit::Bool(b) => (format!("{}", b.value), false), _ => return Err("literal pattern".into()) },
+            _ => return Err(format!("pattern kind at line {}", p.span().start().line)),
+        })
+    }
+
+    // ---------------------------------------------------------------- effectful expressions, CPS
+    /// gallina term of type `rs T` that evaluates `e` and hands its value to `k` (a gallina function)
+    fn tr(&mut self, e: &Expr, k: &str) -> R<String> {
+        if let Some(p) = self.pure(e)? { return Ok(format!("({} {})", k, p)); }
+        match e {
+            Expr::Paren(p) => self.tr(&p.expr, k),
+            Expr::Group(p) => self.tr(&p.expr, k),
+            Expr::Reference(r) => self.tr(&r.expr, k),
+            Expr::Block(b) => { let mark = self.env.len(); let r = self.stmts(&b.block.stmts, k); self.env.truncate(mark); r }
+            Expr::Unary(u) => {
+                let x = self.fresh("t");
+                let inner = match u.op {
+                    UnOp::Deref(_) => return self.tr(&u.expr, k),
+                    UnOp::Not(_) => format!("({} (negb {}))", k, x),
+                    UnOp::Neg(_) => { let f = match self.ty(&u.expr) { Ty::Usize => return Err("negation of usize".into()), _ => "i32_neg" }; format!("(bind ({} {}) {})", f, x, k) }
+                    _ => return Err("unary operator".into()),
+                };
+                self.tr(&u.expr, &format!("(fun {} => {})", x, inner))
+            }
+            Expr::Cast(c) => {
+                let x = self.fresh("t");
+                self.env.push((x.clone(), self.ty(&c.expr)));
+                let fake: Expr = parse_str(&format!("{} as {}", x, quote_type(&c.ty))).map_err(|e| e.to_string())?;
+                let body = self.pure(&fake)?.ok_or("cast")?;
+                self.env.pop();
+                self.tr(&c.expr, &format!("(fun {} => ({} {}))", x, k, body))
+            }
+            Expr::Binary(b) => {
+                let t = self.int_ty(&b.left, &b.right);
+                match b.op {
+                    BinOp::Add(_) | BinOp::Sub(_) | BinOp::Mul(_) => {
+                        let pre = match t { Ty::Usize => "usize", Ty::I32 => "i32", _ => return Err("arithmetic on a non-integer".into()) };
+                        let opn = match b.op { BinOp::Add(_) => "add", BinOp::Sub(_) => "sub", _ => "mul" };
+                        let (x, y) = (self.fresh("t"), self.fresh("t"));
+                        let inner = self.tr(&b.right, &format!("(fun {} => (bind ({}_{} {} {}) {}))", y, pre, opn, x, y, k))?;
+                        self.tr(&b.left, &format!("(fun {} => {})", x, inner))
+                    }
+                    BinOp::Or(_) | BinOp::And(_) => {
+                        // short circuit: the right operand is evaluated only when the left one does not decide
+                        let kj = self.fresh("k");
+                        let x = self.fresh("t");
+                        let rhs = self.tr(&b.right, &kj)?;
+                        let body = if matches!(b.op, BinOp::Or(_)) { format!("(if {} then ({} true) else {})", x, kj, rhs) }
+                                   else { format!("(if {} then {} else ({} false))", x, rhs, kj) };
+                        let lhs = self.tr(&b.left, &format!("(fun {} : bool => {})", x, body))?;
+                        Ok(format!("(let {} := {} in {})", kj, k, lhs))
+                    }
+                    _ => {
+                        let (x, y) = (self.fresh("t"), self.fresh("t"));
+                        // comparison of two evaluated operands: rebuild it over the fresh names
+                        self.env.push((x.clone(), self.ty(&b.left))); self.env.push((y.clone(), self.ty(&b.right)));
+                        let lx: Expr = parse_str(&x).unwrap(); let ry: Expr = parse_str(&y).unwrap();
+                        let cmp = self.binop_pure(&b.op, &lx, &ry, &x, &y);
+                        self.env.pop(); self.env.pop();
+                        let cmp = cmp?;
+                        let inner = self.tr(&b.right, &format!("(fun {} => ({} {}))", y, k, cmp))?;
+                        self.tr(&b.left, &format!("(fun {} => {})", x, inner))
+                    }
+                }
+            }
+            Expr::If(i) => {
+                if matches!(&*i.cond, Expr::Let(_)) { return Err("if let".into()); }
+                let kj = self.fresh("k");
+                let c = self.fresh("c");
+                let mark = self.env.len();
+                let th = self.stmts(&i.then_branch.stmts, &kj)?;
+                self.env.truncate(mark);
+                let el = match &i.else_branch { Some((_, e)) => self.tr(e, &kj)?, None => format!("({} tt)", kj) };
+                self.env.truncate(mark);
+                let cond = self.tr(&i.cond, &format!("(fun {} : bool => (if {} then {} else {}))", c, c, th, el))?;
+                Ok(format!("(let {} := {} in {})", kj, k, cond))
+            }
+            Expr::Match(m) => self.tr_match(m, k),
+            Expr::Return(r) => match &r.expr { Some(e) => { let k = self.retk(); self.tr(e, &k) }, None => Ok("(Ret tt)".into()) },
+            Expr::Try(t) => {
+                let (r, v) = (self.fresh("r"), self.fresh("v"));
+                self.tr(&t.expr, &format!("(fun {} => match {} with Some {} => ({} {}) | None => Ret None end)", r, r, v, k, v))
+            }
+            Expr::Macro(m) => {
+                let name = path_str(&m.mac.path);
+                if name == "bail" { Ok("(Ret None)".into()) } else { Err(format!("macro `{}!`", name)) }
+            }
+            Expr::Call(c) => {
+                let f = match &*c.func { Expr::Path(p) => path_str(&p.path), _ => return Err("call of a non-path".into()) };
+                let names: Vec<String> = c.args.iter().map(|_| self.fresh("a")).collect();
+                let head = if let Some(g) = self.calls.get(&f).cloned() { format!("(bind ({} {}) {})", g, names.join(" "), k) }
+                           else if f == "Err" { format!("({} None)", k) }
+                           else if let Some((g, _)) = ctor1(&f) { format!("({} ({} {}))", k, g, names.join(" ")) }
+                           else { return Err(format!("call of `{}`", f)); };
+                let mut acc = head;
+                for (a, n) in c.args.iter().zip(names.iter()).rev() { acc = self.tr(a, &format!("(fun {} => {})", n, acc))?; }
+                Ok(acc)
+            }
+            Expr::MethodCall(m) => {
+                let name = m.method.to_string();
+                let g = self.calls.get(&name).cloned().ok_or(format!("method `{}` with an effectful operand", name))?;
+                let rn = self.fresh("a");
+                let names: Vec<String> = m.args.iter().map(|_| self.fresh("a")).collect();
+                let mut acc = format!("(bind ({} {} {}) {})", g, rn, names.join(" "), k);
+                for (a, n) in m.args.iter().zip(names.iter()).rev() { acc = self.tr(a, &format!("(fun {} => {})", n, acc))?; }
+                self.tr(&m.receiver, &format!("(fun {} => {})", rn, acc))
+            }
+            Expr::Tuple(t) => {
+                let names: Vec<String> = t.elems.iter().map(|_| self.fresh("a")).collect();
+                let mut acc = format!("({} ({}))", k, names.join(", "));
+                for (a, n) in t.elems.iter().zip(names.iter()).rev() { acc = self.tr(a, &format!("(fun {} => {})", n, acc))?; }
+                Ok(acc)
+            }
+            Expr::Struct(s) => {
+                if path_str(&s.path) != "Range" { return Err("struct literal".into()); }
+                let (a, b) = (self.fresh("a"), self.fresh("a"));
+                let mut st = None; let mut en = None;
+                for f in &s.fields { match &f.member { Member::Named(n) if n == "start" => st = Some(&f.expr), Member::Named(n) if n == "end" => en = Some(&f.expr), _ => return Err("Range field".into()) } }
+                let inner = self.tr(en.ok_or("Range.end")?, &format!("(fun {} => ({} ({}, {})))", b, k, a, b))?;
+                self.tr(st.ok_or("Range.start")?, &format!("(fun {} => {})", a, inner))
+            }
+            other => Err(format!("effectful expression kind at line {}", other.span().start().line)),
+        }
+    }
+
+    fn tr_match(&mut self, m: &ExprMatch, k: &str) -> R<String> {
+        // the scrutinee is evaluated once, then the arms are tried in order
+        let sc = self.fresh("s");
+        // component types of a tuple scrutinee, as hints for the variables the patterns bind
+        self.tuple_hint = match &*m.expr { Expr::Tuple(t) => t.elems.iter().map(|e| self.ty(e)).collect(), _ => vec![] };
+        let whole_hint = self.ty(&m.expr);
+        let hints = self.tuple_hint.clone();
+        let kj = self.fresh("k");
+        let mut rest = format!("(fun _ : unit => @Panic {})", self.ret_ty);
+        let mut lets: Vec<(String, String)> = vec![];
+        for arm in m.arms.iter().rev() {
+            let mark = self.env.len();
+            self.tuple_hint = hints.clone();
+            let (p, irrefutable) = self.pat(&arm.pat, whole_hint)?;
+            let body = self.tr(&arm.body, &kj)?;
+            let fall = self.fresh("fall");
+            let guarded = match &arm.guard {
+                Some((_, g)) => {
+                    // the guard is evaluated (it may overflow) after the pattern has matched
+                    let gv = self.fresh("g");
+                    self.tr(g, &format!("(fun {} : bool => (if {} then {} else ({} tt)))", gv, gv, body, fall))?
+                }
+                None => body,
+            };
+            self.env.truncate(mark);
+            // irrefutable tuple patterns need the destructuring let
+            let term = if irrefutable && p.starts_with('(') { format!("(let '{} := {} in {})", p, sc, guarded) }
+                       else if irrefutable { format!("(let {} := {} in {})", p, sc, guarded) }
+                       else { format!("(match {} with | {} => {} | _ => ({} tt) end)", sc, p, guarded, fall) };
+            lets.push((fall, rest));
+            rest = format!("(fun _ : unit => {})", term);
+        }
+        let mut out = format!("({} tt)", rest);
+        for (name, val) in lets.iter().rev() { out = format!("(let {} := {} in {})", name, val, out); }
+        let body = format!("(let {} := {} in {})", kj, k, out);
+        self.tr(&m.expr, &format!("(fun {} => {})", sc, body))
+    }
+
+    fn stmts(&mut self, ss: &[Stmt], k: &str) -> R<String> {
+        let (first, rest) = match ss.split_first() { None => return Ok(format!("({} tt)", k)), Some(x) => x };
+        match first {
+            Stmt::Local(l) => {
+                let init = l.init.as_ref().ok_or("let without a value")?;
+                if init.diverge.is_some() { return Err("let-else".into()); }
+                let hint = match &l.pat { Pat::Type(_) => Ty::Other, _ => self.ty(&init.expr) };
+                let mark = self.env.len();
+                self.tuple_hint = vec![];
+                let (p, irrefutable) = self.pat(&l.pat, hint)?;
+                if !irrefutable { return Err("refutable let pattern".into()); }
+                let rest_s = self.stmts(rest, k)?;
+                // the initialiser sees the environment from before the binding (shadowing)
+                let bound: Vec<(String, Ty)> = self.env.drain(mark..).collect();
+                let r = self.tr(&init.expr, &format!("(fun {}{} => {})", if p.starts_with('(') { "'" } else { "" }, p, rest_s));
+                drop(bound);
+                r
+            }
+            Stmt::Expr(e, semi) => {
+                if rest.is_empty() && semi.is_none() { return self.tr(e, k); }
+                if rest.is_empty() {
+                    // `expr;` in tail position: its value is dropped, the block yields ()
+                    return self.tr(e, &format!("(fun _ => ({} tt))", k));
+                }
+                let rest_s = self.stmts(rest, k)?;
+                let unit = matches!(e, Expr::If(ExprIf { else_branch: None, .. }));
+                self.tr(e, &format!("(fun _{} => {})", if unit { " : unit" } else { "" }, rest_s))
+            }
+            Stmt::Macro(m) => {
+                let name = path_str(&m.mac.path);
+                if name == "bail" { Ok("(Ret None)".into()) } else { Err(format!("macro `{}!`", name)) }
+            }
+            Stmt::Item(_) => Err("nested item".into()),
+        }
+    }
+}
+
+/// gallina type of a Rust return type (Result/Option -> option, Vec -> list, Range -> pair)
+fn ret_type(t: &Type) -> Option<String> {
+    match t {
+        Type::Reference(r) => ret_type(&r.elem),
+        Type::Path(p) => {
+            let seg = p.path.segments.last()?;
+            let name = seg.ident.to_string();
+            let arg = |i: usize| -> Option<String> {
+                match &seg.arguments {
+                    PathArguments::AngleBracketed(a) => match a.args.iter().nth(i)? { GenericArgument::Type(t) => ret_type(t), _ => None },
+                    _ => None,
+                }
+            };
+            Some(match name.as_str() {
+                "i32" | "usize" => "Z".into(),
+                "bool" => "bool".into(),
+                "Ordering" => "comparison".into(),
+                "Side" => "side".into(),
+                "UserBounds" => "ubound".into(),
+                "Range" => "(Z * Z)%type".into(),
+                "Option" | "Result" => format!("(option {})", arg(0)?),
+                "Vec" => format!("(list {})", arg(0)?),
+                _ => return None,
+            })
+        }
+        _ => None,
+    }
+}
+
+fn quote_type(t: &Type) -> String {
+    match t { Type::Path(p) => path_str(&p.path), Type::Reference(r) => quote_type(&r.elem), _ => "UNKNOWN".into() }
+}
+
+fn find_fn<'a>(file: &'a File, t: &Target) -> Option<(&'a Signature, &'a Block, usize)> {
+    for it in &file.items {
+        match it {
+            Item::Fn(f) if t.impl_self.is_none() && f.sig.ident == t.func => return Some((&f.sig, &f.block, f.span().start().line)),
+            Item::Impl(im) => {
+                let self_ok = match (&*im.self_ty, t.impl_self) { (Type::Path(p), Some(s)) => path_str(&p.path) == s, _ => false };
+                let trait_ok = match (&im.trait_, t.impl_trait) { (Some((_, p, _)), Some(tr)) => p.segments.last().map_or(false, |s| s.ident == tr), (None, None) => true, _ => false };
+                if !(self_ok && trait_ok) { continue; }
+                for ii in &im.items {
+                    if let ImplItem::Fn(f) = ii { if f.sig.ident == t.func { return Some((&f.sig, &f.block, f.span().start().line)); } }
+                }
+            }
+            _ => {}
+        }
+    }
+    None
+}
+
+fn translate(t: &Target, sig: &Signature, block: &Block) -> R<String> {
+    let mut cx = Cx { env: vec![], fresh: 0, calls: t.calls.iter().map(|(a, b)| (a.to_string(), b.to_string())).collect(), tuple_hint: vec![], ret_ty: String::new() };
+    cx.ret_ty = match &sig.output {
+        ReturnType::Type(_, t) => ret_type(t).ok_or("return type")?,
+        ReturnType::Default => "unit".into(),
+    };
+    let self_coq = match t.impl_self { Some("Side") => ("side", Ty::Side), Some("UserBounds") => ("ubound", Ty::Other), _ => ("UNKNOWN", Ty::Other) };
+    let mut params = String::new();
+    for a in &sig.inputs {
+        match a {
+            FnArg::Receiver(_) => { cx.env.push(("self".into(), self_coq.1)); write!(params, " (self : {})", self_coq.0).unwrap(); }
+            FnArg::Typed(pt) => {
+                let name = match &*pt.pat { Pat::Ident(i) => i.ident.to_string(), _ => return Err("parameter pattern".into()) };
+                let (coq, ty) = match &*pt.ty {
+                    Type::Reference(r) if matches!(&*r.elem, Type::Path(p) if path_str(&p.path) == "Self") => (self_coq.0.to_string(), self_coq.1),
+                    Type::Path(p) if path_str(&p.path) == "Self" => (self_coq.0.to_string(), self_coq.1),
+                    other => ty_of_type(other),
+                };
+                if coq.starts_with("UNKNOWN") { return Err(format!("parameter type of `{}`", name)); }
+                cx.env.push((name.clone(), ty));
+                write!(params, " ({} : {})", ident(&name), coq).unwrap();
+            }
+        }
+    }
+    let k = cx.retk();
+    let body = cx.stmts(&block.stmts, &k)?;
+    Ok(format!("Definition gen_{}{} : rs {} :=\n  {}.\n", t.name, params, cx.ret_ty, body))
+}
+
+fn main() {
+    let args: Vec<String> = std::env::args().collect();
+    if args.len() != 3 { eprintln!("usage: rs2coq <repo-root> <out-dir>"); std::process::exit(2); }
+    let (root, out) = (&args[1], &args[2]);
+    std::fs::create_dir_all(out).unwrap();
+    let mut status = String::from("{\n");
+    let mut okset: Vec<&str> = vec![];
+    for (n, t) in TARGETS.iter().enumerate() {
+        let path = format!("{}/{}", root, t.file);
+        let outfile = format!("{}/Gen_{}.v", out, t.name);
+        let res: R<(String, usize)> = (|| {
+            let src = std::fs::read_to_string(&path).map_err(|e| format!("missing: cannot read {}: {}", t.file, e))?;
+            let file = parse_file(&src).map_err(|e| format!("unsupported: the file does not parse: {}", e))?;
+            let (sig, block, line) = find_fn(&file, t).ok_or(format!("missing: no `{}` in {}", t.func, t.file))?;
+            for d in t.deps { if !okset.contains(d) { return Err(format!("unsupported: depends on `{}`, which was not translated", d)); } }
+            let def = translate(t, sig, block).map_err(|e| format!("unsupported: {}", e))?;
+            Ok((def, line))
+        })();
+        let (st, detail, line) = match res {
+            Ok((def, line)) => {
+                let mut text = String::new();
+                writeln!(text, "(* GENERATED by /verif/translator (rs2coq) from {} : {}{} -- do not edit;", t.file,
+                         t.impl_self.map_or(String::new(), |s| format!("impl {}{} :: ", t.impl_trait.map_or(String::new(), |x| format!("{} for ", x)), s)), t.func).unwrap();
+                writeln!(text, "   regenerated from the working tree of the repository by every check. *)").unwrap();
+                writeln!(text, "From Coq Require Import ZArith Bool List.").unwrap();
+                writeln!(text, "From TucModel Require Import Base.Bytes Model.Bounds Tie.RsPrelude.").unwrap();
+                for d in t.deps { writeln!(text, "From TucModel Require Import Tie.Gen_{}.", d).unwrap(); }
+                writeln!(text, "Import ListNotations.\nLocal Open Scope Z_scope.\n").unwrap();
+                text.push_str(&def);
+                let old = std::fs::read_to_string(&outfile).unwrap_or_default();
+                if old != text { std::fs::write(&outfile, text).unwrap(); }
+                okset.push(t.name);
+                ("ok".to_string(), String::new(), line)
+            }
+            Err(e) => {
+                let _ = std::fs::remove_file(&outfile);
+                let (s, d) = e.split_once(": ").map(|(a, b)| (a.to_string(), b.to_string())).unwrap_or(("unsupported".into(), e.clone()));
+                (s, d, 0)
+            }
+        };
+        writeln!(status, "  \"{}\": {{\"status\": \"{}\", \"detail\": \"{}\", \"source\": \"{}:{}\"}}{}", t.name, st,
+                 detail.replace('\\', "\\\\").replace('"', "'").replace('\n', " "), t.file, line, if n + 1 < TARGETS.len() { "," } else { "" }).unwrap();
+    }
+    status.push_str("}\n");
+    std::fs::write(format!("{}/status.json", out), status).unwrap();
+}
